@@ -140,6 +140,21 @@ func drawC02(t *rapid.T) *c02Scenario {
 				{Key: corev1.LabelTopologyZone, Operator: corev1.NodeSelectorOpIn, Values: []string{gen.Zones[0], gen.Zones[rapid.IntRange(1, 2).Draw(t, l+"_zone2")]}}}}}}}}
 		} else {
 			tmpl.Spec.NodeSelector = nil
+			zoneExpr := func(vals ...string) []corev1.NodeSelectorRequirement {
+				return []corev1.NodeSelectorRequirement{{Key: corev1.LabelTopologyZone, Operator: corev1.NodeSelectorOpIn, Values: vals}}
+			}
+			switch {
+			case dpct(t, 14, l+"_zonePreferred"):
+				// only prefers a zone: the preference must not narrow the domains its spread constraints are judged over
+				z := rapid.SampledFrom(gen.Zones).Draw(t, l+"_prefZone")
+				tmpl.Spec.Affinity = &corev1.Affinity{NodeAffinity: &corev1.NodeAffinity{PreferredDuringSchedulingIgnoredDuringExecution: []corev1.PreferredSchedulingTerm{
+					{Weight: 10, Preference: corev1.NodeSelectorTerm{MatchExpressions: zoneExpr(z)}}}}}
+			case dpct(t, 10, l+"_zoneOrTerms"):
+				// required node affinity with two OR-ed terms (Karpenter tries them in order and drops the first on failure)
+				z := rapid.IntRange(0, 2).Draw(t, l+"_orZone")
+				tmpl.Spec.Affinity = &corev1.Affinity{NodeAffinity: &corev1.NodeAffinity{RequiredDuringSchedulingIgnoredDuringExecution: &corev1.NodeSelector{NodeSelectorTerms: []corev1.NodeSelectorTerm{
+					{MatchExpressions: zoneExpr(gen.Zones[z])}, {MatchExpressions: zoneExpr(gen.Zones[(z+1)%3], gen.Zones[(z+2)%3])}}}}}
+			}
 		}
 		// ... or pinned by a label that is not a topology key of the batch (capacity type, NodePool, architecture): nodes
 		// that do not match take no part in the pod's spreads under nodeAffinityPolicy Honor, whatever runs on them
@@ -371,6 +386,25 @@ func podAdmitsDomain(p *corev1.Pod, key, value string) bool {
 		}
 	}
 	return ref.MatchesNodeAffinity(probe, &corev1.Node{ObjectMeta: metav1.ObjectMeta{Labels: map[string]string{key: value}}})
+}
+
+// orTermsOn: the pod's required node affinity has several OR-ed terms, at least one of which constrains the key.
+func orTermsOn(p *corev1.Pod, key string) bool {
+	if p.Spec.Affinity == nil || p.Spec.Affinity.NodeAffinity == nil || p.Spec.Affinity.NodeAffinity.RequiredDuringSchedulingIgnoredDuringExecution == nil {
+		return false
+	}
+	terms := p.Spec.Affinity.NodeAffinity.RequiredDuringSchedulingIgnoredDuringExecution.NodeSelectorTerms
+	if len(terms) < 2 {
+		return false
+	}
+	for _, term := range terms {
+		for _, e := range term.MatchExpressions {
+			if e.Key == key {
+				return true
+			}
+		}
+	}
+	return false
 }
 
 // ownConstraintsOn counts the required inter-pod constraints the pod itself carries over the key. With two or more, the
@@ -634,7 +668,13 @@ func execC02(s *c02Scenario, c *ev.Ctx) {
 						continue
 					}
 					runningElsewhere = true
-					c.Violate(fmt.Sprintf("affinity:%s:bootstrapped-although-match-exists:running-match", shortKey(key)),
+					bsig := fmt.Sprintf("affinity:%s:bootstrapped-although-match-exists:running-match", shortKey(key))
+					if orTermsOn(p.pod, key) {
+						// Karpenter judges the pod by one OR-ed node-affinity term at a time: after it dropped the term that
+						// admits the match's domain, it no longer sees the match
+						bsig = "node-affinity-or-terms:judged-by-one-term:affinity-bootstrap"
+					}
+					c.Violate(bsig,
 						"%s (self-matching required affinity %s) starts domain %s although %s is in a domain it can use", describe(p, key), metav1.FormatLabelSelector(term.LabelSelector), d, describe(q, key))
 					break
 				}
@@ -662,7 +702,11 @@ func execC02(s *c02Scenario, c *ev.Ctx) {
 				for dj = range ps[j].where.domains(key) {
 				}
 				if di != dj && podAdmitsDomain(ps[i].pod, key, dj) && podAdmitsDomain(ps[j].pod, key, di) {
-					c.Violate(fmt.Sprintf("affinity:%s:bootstrapped-although-match-exists:two-starters", shortKey(key)),
+					tsig := fmt.Sprintf("affinity:%s:bootstrapped-although-match-exists:two-starters", shortKey(key))
+					if orTermsOn(ps[i].pod, key) || orTermsOn(ps[j].pod, key) {
+						tsig = "node-affinity-or-terms:judged-by-one-term:affinity-bootstrap"
+					}
+					c.Violate(tsig,
 						"%s and %s both select themselves through the same required affinity, are alone in their %s domains and each admits the other's domain: whichever was placed second started a domain although a match existed", describe(ps[i], key), describe(ps[j], key), shortKey(key))
 					break pairs
 				}
@@ -840,6 +884,11 @@ func execC02(s *c02Scenario, c *ev.Ctx) {
 			}
 			if skew := count[d] - upperMin; skew > int(tsc.MaxSkew) {
 				sig := "spread:" + shortKey(key) + ":max-skew-exceeded"
+				if orTermsOn(p.pod, key) && honorAffinity {
+					// Karpenter computes the spread minimum over the domains of the one OR-ed node-affinity term it is
+					// trying, kube-scheduler over the nodes that match any of them
+					sig = "node-affinity-or-terms:judged-by-one-term:spread"
+				}
 				if honorTaints && softTaintPool && relaxedToleration[s.Deploy[p.pod.Name]] {
 					// (fixed in 99b842d76) relaxation changed the pod's tolerations, which were part of the group identity
 					// when taints are honored: the re-created group forgot the replicas placed earlier in the pass
